@@ -238,8 +238,11 @@ func c14Run(c *Ctx) {
 								continue
 							}
 							doc := strings.ReplaceAll(t, "S", xmlEsc(s, true))
-							if !seq && !sm && (skip == "" || c.Thorough) {
+							if !seq && !sm && skip == "" {
 								// the same under IncludeTagSeqNum: the structure the option prescribes is the same with and without casting
+								// (without a skip function: which key the function is asked about for a simple element that the
+								// option wraps into {"#text","_seq"} - the element's tag or the text key - is stated nowhere, and
+								// the first version of this pass, which demanded the text key in the thorough tier, raised a false alarm)
 								cfgN := cfg
 								cfgN.SeqNum = true
 								c.S.States++
